@@ -18,6 +18,14 @@ CLAIMED = {
          'Exhaustive within the alphabets/lengths; beyond them sampled.',
          'Trusts TLC, P8Lex as the meaning of the dialect (Lua 5.2 manual 3.1 + PICO-8 extensions), the Python comparison of token lists. '
          'Out of the dialect and never judged: levelled long comments, numerals directly followed by a name character, unknown escapes, lone CR.'),
+ 'C08': ('model_checking',
+         'TLA+ dialect grammar as a pushdown machine (LuaSyntax/GenProg) + TLC-enumerated derivations replayed into the parser + TLC trace validation of recorded trees (TraceSyn)',
+         'LuaSyntax.tla holds the dialect grammar as data (95 productions with depth / line-scope markers). TLC (GenProg) enumerates every leftmost '
+         'derivation up to the token bound in three modes plus short-if-heavy and simulated deep programs, with spec-computed separator flags; each is '
+         'rendered in five layouts (tight, spaced, token-per-line, comments, semicolons), parsed, and the tree must yield exactly the printed derivation with every token consumed. '
+         'Trees of fixtures and layout mutations are judged by the TraceSyn acceptor (derivation, yield, line scopes).',
+         'Trusts TLC, LuaSyntax as the dialect, the renderer and the tree-to-derivation visitor (harness). Expressions are compared in source order only (the tree does not encode precedence). '
+         'Unrenderable behaviours (statement after a nested short-if on the same line, short-if body starting with `(` or `do`) are counted as out of domain.'),
 }
 
 NOT_YET = {}
